@@ -1,4 +1,4 @@
-import Driver.Nat
+import Driver.NatShuffle
 /- strand_driver: evaluates the executable model on one request per line. -/
 open Strand Strand.Proto Strand.Driver
 
@@ -22,7 +22,10 @@ def handle (line : String) : String :=
     | none => "bad-op parse"
     | some vals =>
       match parseCtx ctx with
-      | some (P, fl) => (runNat P fl op vals).show
+      | some (P, fl) =>
+        match runNat P fl op vals with
+        | .badOp _ => (runNatShuffle P fl op vals).show
+        | r => r.show
       | none => "bad-op ctx"
   | _ => "bad-op line"
 
